@@ -1044,7 +1044,7 @@ def _run(ctx, quick, rng, workers, bg, f_pair):
     ctx.extra["model"].update({"pair_states": r_pair.distinct, "pair_max_full_len": 4 if quick else 5})
 
     # 5. (c) code -> spec: recorded constructions and assignment sequences validated by TLC
-    ntr = 1500 if quick else 12000
+    ntr = 1200 if quick else 12000
     traces = [record_trace(rng, CLASSES[i % 3]) for i in range(ntr)]
     for i, t in enumerate(cross):
         traces.append(record_trace(rng, CLASSES[i % 3], s=t, nops=rng.choice([0, 0, 3])))
